@@ -17,6 +17,9 @@ pub fn run(case: &Value) -> Value {
             for rep in 0..reps {
                 match lang::lower_source(src) {
                     lang::Front::Ok(txs) => {
+                        // (the outcome itself is an artifact: a source that is sometimes refused and sometimes built
+                        // has no reproducible build)
+                        events.push(json!({"ev": "Built", "artifact": "front", "where": "in-process", "rep": rep, "digest": "ok"}));
                         for (name, tx) in txs.iter() {
                             let (bytes, _) = encoding::to_bytes(tx);
                             events.push(json!({"ev": "Built", "artifact": format!("tir:{name}"), "where": "in-process", "rep": rep,
